@@ -288,6 +288,49 @@ def _anc(n):
 ALWAYS = {"Input", "Output"}  # appended for every register by CircuitDAG._add_register
 
 
+def rule_reg_depth_aligned(ctx: Ctx) -> None:
+    """depth.index-aligned: calculate_reg_depth(reg_type) returns a list whose entry i is the depth of register i of that type: entry i is
+    computed from the node named f"{reg_type}{i}_out" with the *same* i that indexes the list.  Collecting the output nodes some other way
+    and relying on their order (a sort of the node names is lexicographic: "p10_out" < "p2_out") hands the right depths to the wrong
+    registers once a type has more than ten registers."""
+    repo = ctx.repo
+    m = repo.module(DAG)
+    fn = repo.anchor(DAG, "CircuitDAG.calculate_reg_depth")
+    ctx.touch(m, fn)
+    RT = func_params(fn)[1]
+    stores = [a for a in ast.walk(fn) if isinstance(a, ast.Assign) and isinstance(a.targets[0], ast.Subscript) and "_register_depth" in norm(a.targets[0])]
+    whole = [a for a in stores if norm(a.targets[0]) == f"self._register_depth[{RT}]"]
+    per = [a for a in stores if a not in whole]
+    if whole and isinstance(whole[0].value, ast.ListComp) and len(whole[0].value.generators) == 1 and isinstance(whole[0].value.generators[0].target, ast.Name) \
+            and isinstance(whole[0].value.generators[0].iter, ast.Call) and call_name(whole[0].value.generators[0].iter) == "range":
+        iv_ = whole[0].value.generators[0].target.id
+        from ..core import expand as _expand
+        js = [j for j in ast.walk(_expand(fn, whole[0].value.elt)) if isinstance(j, ast.JoinedStr)]
+        if any([norm(v.value) for v in j.values if isinstance(v, ast.FormattedValue)] == [RT, iv_] and any(isinstance(v, ast.Constant) and "_out" in str(v.value) for v in j.values) for j in js):
+            ctx.ok("depth.index-aligned", m, whole[0], what="list rebuilt with entry i <- depth of node f'{reg_type}{i}_out'")
+            return
+    if whole:
+        ctx.fail("depth.index-aligned", m, whole[0],
+                 f"calculate_reg_depth rebuilds the whole list as `{short(whole[0].value, 70)}`: entry i is whatever comes i-th in that collection, not the depth of register i "
+                 f"(node names sort as strings: '{RT}10_out' comes before '{RT}2_out')", func="CircuitDAG.calculate_reg_depth",
+                 construct="calculate_reg_depth: list rebuilt from a collection of output nodes")
+        return
+    if not per:
+        raise AnalysisError("calculate_reg_depth: the store into _register_depth was not found")
+    for a in per:
+        idx = a.targets[0].slice
+        loop = next((l for l in ast.walk(fn) if isinstance(l, ast.For) and any(x is a for x in ast.walk(l))), None)
+        ok = isinstance(idx, ast.Name) and loop is not None and isinstance(loop.target, ast.Name) and loop.target.id == idx.id \
+            and isinstance(loop.iter, ast.Call) and call_name(loop.iter) == "range" and "_register_depth" in norm(loop.iter)
+        names = [j for j in ast.walk(fn) if isinstance(j, ast.JoinedStr) and any(isinstance(v, ast.Constant) and "_out" in str(v.value) for v in j.values)]
+        aligned = ok and any([norm(v.value) for v in j.values if isinstance(v, ast.FormattedValue)] == [RT, idx.id] for j in names)
+        if aligned:
+            ctx.ok("depth.index-aligned", m, a, what="entry i <- depth of node f'{reg_type}{i}_out'")
+        else:
+            ctx.fail("depth.index-aligned", m, a, f"calculate_reg_depth: `{short(a, 70)}` does not take entry i from register i's own output node",
+                     func="CircuitDAG.calculate_reg_depth", construct="calculate_reg_depth: entry / register misaligned")
+
+
 def rule_metric_arith(ctx: Ctx) -> None:
     """metric.arith: the arithmetic of the count and interval metrics, as linear forms.  (a) a count metric is the number of nodes
     returned by its label query, 0 when the label is absent, accumulated by addition from 0; a guard in front of a query is a membership
@@ -607,6 +650,7 @@ def rule_depth_longest(ctx: Ctx) -> None:
 
 
 def run(ctx: Ctx) -> None:
+    rule_reg_depth_aligned(ctx)
     from .c13 import rule_rewrite_order
     rule_rewrite_order(ctx)   # the normalisation this property relies on (unwrap_nodes expands every wrapper, in order)
     rule_depth_longest(ctx)
@@ -687,6 +731,7 @@ def _edit_unitary_complement(src: str) -> str:
 
 
 KNOCKOUTS = [
+    Knockout("reg-depth-from-sorted-output-nodes", DAG, sub_once("        for i in range(len(self._register_depth[reg_type])):\n            output_node = f\"{reg_type}{i}_out\"\n            self._register_depth[reg_type][i] = self._max_depth(output_node)\n", "        output_nodes = sorted(n for n in self.node_dict.get(\"Output\", []) if self.dag.nodes[n][\"op\"].reg_type == reg_type)\n        self._register_depth[reg_type] = [self._max_depth(n) for n in output_nodes]\n"), "depth.index-aligned", "rebuilt"),
     Knockout("unitary-count-by-complement", METRICS, _edit_unitary_complement, "table.labels", "complement query"),
     Knockout("flatten-helper-returns-early", METRICS, _edit_flatten_helper, "metric.source", "returns early"),
     Knockout("reset-intervals-skip-last-pair", METRICS, sub_once("                m_list[j + 1] - m_list[j] for j in range(len(m_list) - 1)", "                m_list[j + 1] - m_list[j] for j in range(len(m_list) - 2)"), "metric.arith", "CircuitMaxEmitResetDepth"),
